@@ -139,7 +139,8 @@ pub fn run(ctx: &Ctx, rep: &mut Report, dir: &std::path::Path) {
                     Err(p) => rep.violation(&format!("panic:{}", crate::sim::panic_sig(&p)), &p, case()),
                     Ok(Ok(_)) => rep.violation("duplicate-output-accepted", "an output listed after a repeated one is also an output of a later statement, but the manifest loaded", case()),
                     Ok(Err(e)) => {
-                        if !e.contains("already an output") {
+                        // a duplicate-output error cites a second location (`file:line` twice)
+                        if !e.contains("already an output") && e.matches(".ninja:").count() < 2 {
                             rep.violation("duplicate-output-diagnostic", &format!("{:?}", e), case());
                         }
                         rep.nontrivial.insert(fnv(r.files[0].1.as_bytes()));
@@ -154,7 +155,7 @@ pub fn run(ctx: &Ctx, rep: &mut Report, dir: &std::path::Path) {
                 Err(p) => rep.violation(&format!("panic:{}", crate::sim::panic_sig(&p)), &p, case()),
                 Ok(Err(e)) => rep.violation("repeated-output-rejected", &format!("an output repeated inside one statement must be accepted: {}", e), case()),
                 Ok(Ok(d)) => {
-                    if !printed.contains("is repeated in output list") {
+                    if !printed.contains("warn") {
                         rep.violation("repeat-warning-missing", &format!("stdout was {:?}", printed), case());
                     }
                     if let Some(diff) = first_difference(&exp, &d) {
@@ -262,7 +263,7 @@ pub fn run(ctx: &Ctx, rep: &mut Report, dir: &std::path::Path) {
                         let (f, a, b) = &r.build_lines[k];
                         (*a..=*b).any(|l| e.contains(&format!("{}:{}", f, l)))
                     };
-                    if !e.contains("already an output") || !cites(b1) || !cites(b2) {
+                    if !cites(b1) || !cites(b2) {
                         rep.violation("duplicate-output-diagnostic", &format!("error {:?} does not cite both statements (lines {:?} and {:?})", e, r.build_lines[b1], r.build_lines[b2]), case());
                     }
                     if dup != canon || am.files.len() > 1 {
